@@ -237,9 +237,24 @@ def body_E1(ctx):
 
     b = io.BytesIO()
     t = io.StringIO()
-    kw = {"json_default": my_default}
-    db = FileDestination(file=b, **kw)
-    dt = FileDestination(file=t, **kw)
+    how = ctx.choose(3, "how the destination is made")
+    if how == 0:
+        db = FileDestination(file=b, json_default=my_default)
+        dt = FileDestination(file=t, json_default=my_default)
+    elif how == 1:
+        # deprecated: a JSONEncoder subclass
+        class Enc(json.JSONEncoder):
+            def default(self, o):
+                return my_default(o)
+
+        db = FileDestination(file=b, encoder=Enc)
+        dt = FileDestination(file=t, encoder=Enc)
+    else:
+        from eliot import to_file
+
+        to_file(b, json_default=my_default)
+        to_file(t, json_default=my_default)
+        db, dt = Logger._destinations._destinations[-2:]
     db(message)
     dt(message)
     raw = b.getvalue()
@@ -297,6 +312,6 @@ OBLIGATIONS = [
         shards={"quick": [{"deep": 50}], "thorough": [{"deep": 50}, {"deep": 200}]},
         twin=[{"deep": 50, "twin_label": "rich-nested"}],
         timeout={"quick": 100, "thorough": 300},
-        bounds={"quick": "22 JSON-native corner classes + 8 rich values (path, date, time, 4 sets, complex) + custom json_default, nesting depth {0,1,3,50} in lists or dicts, binary and text files - witnesses per class, not a for-all claim"},
+        bounds={"quick": "22 JSON-native corner classes + 8 rich values (path, date, time, 4 sets, complex) + custom json_default, nesting depth {0,1,3,50} in lists or dicts, binary and text files, made by FileDestination(json_default=) / FileDestination(encoder=) / to_file() - witnesses per class, not a for-all claim"},
     ),
 ]
